@@ -9,17 +9,30 @@ Import ListNotations.
 Open Scope list_scope.
 
 Section Sim.
+Variable d : dialect.
 Variable ctor_ok : string -> string -> bool -> Prop.
+Notation compile := (Compile.compile d).
+Notation compile_block := (Compile.compile_block d).
+Notation compile_list := (Compile.compile_list d).
+Notation compile_arms := (Compile.compile_arms d).
+Notation compile_sarms := (Compile.compile_sarms d).
+Notation switch_u := (Compile.switch_u d).
+Notation switch_s := (Compile.switch_s d).
+Notation nv := (Compile.nv d).
+Notation nvb := (Compile.nvb d).
+Notation nva := (Compile.nva d).
+Notation nvs := (Compile.nvs d).
+
 Variable sfuns : list (var * (list var * block)).
 Variable gfuncs : list (var * (list var * list gstmt)).
 Variable gvars : list (var * gexpr).
 
 Notation wfe := (wfe true ctor_ok).
 Notation wfb := (wfb true ctor_ok).
-Notation vrel := (vrel ctor_ok gfuncs).
-Notation erel := (erel ctor_ok gfuncs).
-Notation peval := (peval ctor_ok gfuncs).
-Notation pevals := (pevals ctor_ok gfuncs).
+Notation vrel := (vrel d ctor_ok gfuncs).
+Notation erel := (erel d ctor_ok gfuncs).
+Notation peval := (peval d ctor_ok gfuncs).
+Notation pevals := (pevals d ctor_ok gfuncs).
 Notation Geval := (Geval gfuncs gvars).
 Notation Gevals := (Gevals gfuncs gvars).
 Notation Gexec := (Gexec gfuncs gvars).
@@ -40,14 +53,14 @@ Hypothesis Hctor0 : forall u c, ctor_ok u c false ->
 Lemma var_sim' senv genv x v :
   erel senv genv -> reserved x = false -> lookup_var sfuns x senv = Some v ->
   exists gv, glookup x genv = Some gv /\ vrel v gv.
-Proof. exact (var_sim ctor_ok sfuns gfuncs Hfuns senv genv x v). Qed.
+Proof. exact (var_sim d ctor_ok sfuns gfuncs Hfuns senv genv x v). Qed.
 
 Lemma peval_Geval' env k a gv t : peval env k a gv -> Geval env (compile k a) t gv t.
-Proof. apply (peval_Geval ctor_ok gfuncs gvars Hctor1 Hctor0). Qed.
+Proof. apply (peval_Geval d ctor_ok gfuncs gvars Hctor1 Hctor0). Qed.
 Lemma pevals_Gevals' env args k gws rest t rvs t' :
   pevals env k args gws -> Gevals env rest t rvs t' ->
   Gevals env (compile_list k args ++ rest) t (gws ++ rvs) t'.
-Proof. apply (pevals_Gevals ctor_ok gfuncs gvars Hctor1 Hctor0). Qed.
+Proof. apply (pevals_Gevals d ctor_ok gfuncs gvars Hctor1 Hctor0). Qed.
 
 Lemma Gs_close genv (ces:list gexpr) t (gs:list gval) t' :
   (forall rest rvs t2, Gevals genv rest t' rvs t2 -> Gevals genv (ces ++ rest) t (gs ++ rvs) t2) ->
@@ -123,7 +136,7 @@ Lemma tuple_pure (gvs:list gval) n :
   lib_pure gops (tuple_fn n) gvs = Some (GVStruct (tuple_struct (List.length gvs)) (combine tuple_fields gvs)).
 Proof.
   intros -> T.
-  destruct gvs as [|a [|b [|c [|d gvs]]]]; cbn [List.length] in *; destruct T as [T|T]; try discriminate T;
+  destruct gvs as [|a [|b [|c [|d0 gvs]]]]; cbn [List.length] in *; destruct T as [T|T]; try discriminate T;
     reflexivity.
 Qed.
 
@@ -161,7 +174,7 @@ Qed.
 
 Lemma veq_sim' va vb ga gb r :
   vrel va ga -> vrel vb gb -> val_eq va vb = Some r -> gval_eq ga gb = Some r.
-Proof. apply (veq_sim ctor_ok gfuncs va). Qed.
+Proof. apply (veq_sim d ctor_ok gfuncs va). Qed.
 
 (** *** pure arguments *)
 Lemma step_P n : SimP n -> SimPs n -> SimP (S n).
@@ -178,7 +191,7 @@ Proof.
     rewrite (glookup_equiv _ _ _ _ Q) by (apply reserved_false; assumption). exact L'.
   - sstep H. inversion W; subst. inversion H; subst. split; [reflexivity|]. intros env' k Q.
     eexists; split; [constructor|].
-    destruct (erel_equiv _ _ _ _ _ E Q) as (E1 & E2 & E3). constructor; auto.
+    destruct (erel_equiv _ _ _ _ _ _ E Q) as (E1 & E2 & E3). constructor; auto.
   - sstep H. inversion W; subst.
     destruct (lookup_var sfuns f senv) as [fv|] eqn:L; try discriminate.
     rb H Es. inversion H; subst.
@@ -203,7 +216,7 @@ Proof.
            destruct (arith sops _ v0 v1) as [r|] eqn:A; cbn in H; inversion H; subst;
            split; [reflexivity|]; intros env' k Q;
            destruct (K1 env' k Q) as (ga & Pga & Va); destruct (K2 env' (k + nv a0) Q) as (gb & Pgb & Vb);
-           destruct (arith_sim _ _ _ _ _ _ _ _ Va Vb A) as (gv & A' & V);
+           destruct (arith_sim _ _ _ _ _ _ _ _ _ Va Vb A) as (gv & A' & V);
            exists gv; split; [eapply PE_arith; eauto; discriminate|exact V]).
     + destruct v0 as [| |[|]| | | | | | |]; try discriminate.
       * rb H E2. destruct (IPb _ _ _ E2) as (-> & K2). destruct v0; try discriminate. inversion H; subst.
@@ -265,13 +278,13 @@ Proof.
     exists gv; split; [eapply PE_field; eauto|exact V].
   - (* constructor without payload *)
     inversion W; subst. sstep H. inversion H; subst. split; [reflexivity|]. intros env' k Q.
-    destruct (erel_equiv _ _ _ _ _ E Q) as (_ & _ & E3).
+    destruct (erel_equiv _ _ _ _ _ _ E Q) as (_ & _ & E3).
     eexists; split; [eapply PE_ctor0; [eassumption|apply E3; apply ctor_name_like]|constructor].
   - (* constructor with payload *)
     inversion W; subst. sstep H. rb H E1. inversion H; subst.
     match goal with Wa : wfe a0, Pa : pure a0 |- _ => destruct (IP _ _ _ _ _ _ Wa Pa E E1) as (-> & K1) end.
     split; [reflexivity|]. intros env' k Q.
-    destruct (erel_equiv _ _ _ _ _ E Q) as (_ & _ & E3).
+    destruct (erel_equiv _ _ _ _ _ _ E Q) as (_ & _ & E3).
     destruct (K1 env' k Q) as (ga & Pga & Va).
     eexists; split; [eapply PE_ctor1; [eassumption|apply E3; apply ctor_name_like|exact Pga]|constructor; exact Va].
   - (* slice literal *)
@@ -395,7 +408,7 @@ Proof.
   inversion W as [| | | | | | | | | | | | | | | | | | | | | |? ? ? ? We Warms Wdef| | | |]; subst.
   unfold switch_u.
   set (hv := has_case_var arms) in *. set (tmp := vname (S k)).
-  set (k0 := if hv then S k else k).
+  set (k0 := k + match_tmps d arms).
   useE IE E1 k0 g1 G1 V1.
   assert (exists fs, g1 = GVStruct (case_struct u c) fs /\
             match payload with
@@ -467,12 +480,12 @@ Qed.
 (** *** blocks *)
 Lemma destr_pure (gvs:list gval) (xs:list var) :
   List.length xs = List.length gvs -> two_or_three (List.length gvs) ->
-  lib_pure gops (destr_fn (List.length xs)) [GVStruct (tuple_struct (List.length gvs)) (combine tuple_fields gvs)]
+  lib_pure gops (destr_fn d (List.length xs)) [GVStruct (tuple_struct (List.length gvs)) (combine tuple_fields gvs)]
   = Some (GVMulti gvs).
 Proof.
   intros L T. rewrite L.
-  destruct gvs as [|a [|b [|c [|d gvs]]]]; cbn [List.length] in *; destruct T as [T|T]; try discriminate T;
-    reflexivity.
+  destruct gvs as [|a [|b [|c [|d0 gvs]]]]; cbn [List.length] in *; destruct T as [T|T]; try discriminate T;
+    destruct d; reflexivity.
 Qed.
 
 Lemma step_B n : SimE n -> SimB n -> SimMU n -> SimMS n -> SimBE n -> SimB (S n).
@@ -499,7 +512,7 @@ Proof.
     + match goal with T2 : two_or_three (List.length xs) |- _ => destruct T2 as [T2|T2]; rewrite T2; discriminate end.
     + eapply G_libcall; [eapply Gs_cons; [exact G1|apply Gs_nil]|].
       apply Gl_pure.
-      * match goal with T2 : two_or_three (List.length xs) |- _ => destruct T2 as [T2|T2]; rewrite T2; reflexivity end.
+      * match goal with T2 : two_or_three (List.length xs) |- _ => destruct T2 as [T2|T2]; rewrite T2; destruct d; reflexivity end.
       * apply destr_pure; [congruence|]. rewrite <- Lv. exact T.
   - (* do *)
     rb H E1. useE IE E1 k g1 G1 V1.
@@ -561,7 +574,7 @@ Proof.
     + intros t rest rvs t2 Gr. cbn. eapply Gs_cons; [apply G_var; exact Lg|apply G; exact Gr].
     + cbn [map all_some]. unfold to_s, hole_text in *.
       assert (Hf : fmt_atom gops gv = fmt_atom sops v).
-      { unfold fmt_atom. rewrite (vrel_asInt _ _ _ _ V), (vrel_asStr _ _ _ _ V), (vrel_asBool _ _ _ _ V). reflexivity. }
+      { unfold fmt_atom. rewrite (vrel_asInt _ _ _ _ _ V), (vrel_asStr _ _ _ _ _ V), (vrel_asBool _ _ _ _ _ V). reflexivity. }
       rewrite Hf, Ht. unfold to_s in A. rewrite A. reflexivity.
     + cbn. rewrite F. reflexivity.
 Qed.
@@ -586,7 +599,7 @@ Proof.
     destruct op; sstep H; rb H E1;
       try (rb H E2; destruct (arith sops _ v0 v1) as [r|] eqn:A; cbn in H; inversion H; subst;
            useE IE E1 k g1 G1 V1; useE IE E2 (k + nv e1) g2 G2 V2;
-           destruct (arith_sim _ _ _ _ _ _ _ _ V1 V2 A) as (gv & A' & V);
+           destruct (arith_sim _ _ _ _ _ _ _ _ _ V1 V2 A) as (gv & A' & V);
            exists gv; split; [eapply G_arith; eauto; discriminate|exact V]).
     + (* && *)
       useE IE E1 k g1 G1 V1.
@@ -674,7 +687,7 @@ Proof.
     inversion W; subst. sstep H.
     match goal with Hs : src_fn fn = true |- _ => rewrite Hs in H end.
     rb H Es. useEs IEs Es k gs Vs Gs.
-    destruct (lib_sim ctor_ok gfuncs gvars (apply sfuns n) IA fn _ _ _ _ _ ltac:(assumption) Vs H) as (gv & Gl & V).
+    destruct (lib_sim d ctor_ok gfuncs gvars (apply sfuns n) IA fn _ _ _ _ _ ltac:(assumption) Vs H) as (gv & Gl & V).
     exists gv; split; [|exact V].
     change (compile k (EExt fn args)) with (GCall (GLib fn) (compile_list k args)).
     eapply G_libcall; [|exact Gl].
@@ -732,7 +745,7 @@ Proof.
     assert (E' : erel senv env') by (apply erel_tmp; [exact E|reflexivity]).
     match goal with Wa : Forall wfe args |- _ =>
       destruct (IEs senv env' args _ _ _ (k + nv e) Wa E' Es) as (gs & Vs & Gs) end.
-    destruct (lib_sim ctor_ok gfuncs gvars (apply sfuns n) IA fn (v1 ++ [v0]) (gs ++ [g1]) _ _ _ ltac:(assumption)
+    destruct (lib_sim d ctor_ok gfuncs gvars (apply sfuns n) IA fn (v1 ++ [v0]) (gs ++ [g1]) _ _ _ ltac:(assumption)
                  ltac:(apply Forall2_app; [exact Vs|constructor; [exact V1|constructor]]) Ea) as (gv & Gl & V).
     assert (Hres : exists r, vrel v r /\
               forall stage sv, Geval genv stage t0 sv t0 -> Gapply sv [g1] t0 gv t2 ->
